@@ -91,7 +91,16 @@ def main():
         fty = '%s (%s)' % (tstr(f.ret), ', '.join(ptys + (['...'] if f.vararg else [])))
         tty = '%s (%s)' % (tstr(tf.ret), ', '.join(tstr(pt) for pt, _ in tf.params))
         qn = '@' + (n if re.fullmatch(r'[-a-zA-Z$._0-9]+', n) else '"%s"' % n)
-        params = ', '.join('%s %%a%d' % (t, k) for k, t in enumerate(ptys))
+        def abi_attr(k):
+            # byval/sret change how the argument is passed: the forwarder must keep them
+            toks = getattr(f, 'pattrs', {}).get(k, [])
+            out = []
+            for j, (kk, vv) in enumerate(toks):
+                if vv in ('byval', 'sret'):
+                    pt = f.params[k][0]
+                    out.append('%s(%s)' % (vv, tstr(pt[1])))
+            return (' ' + ' '.join(out)) if out else ''
+        params = ', '.join('%s%s %%a%d' % (t, abi_attr(k), k) for k, t in enumerate(ptys))
         if f.vararg: params += ', ...'
         callargs = ', '.join('%s %%a%d' % (t, k) for k, t in enumerate(ptys))
         body = ['define internal %s %s(%s) noinline {' % (tstr(f.ret), qn, params)]
